@@ -547,7 +547,74 @@ def w1(ctx, R):
                 continue
             ctx.violation("W1", snd, "args-bypass-formatter", "the argument list is used outside the formatter call: %s" % norm(stmt_of(nnode))[:80],
                           node=nnode)
+    w9(ctx, R, fmt, snd)
     return args_param
+
+
+def w9(ctx, R, fmt=None, snd=None, rule="W9"):
+    """What the sender writes, by evaluation over small inputs: for (verb, arguments, extra lines) in a sample set and EVERY setting of the
+    sender's other parameters and of the instance flags it reads, the bytes handed to the socket are
+        verb [SP formatted arguments joined by SP] CRLF  {extra line CRLF}
+    where `formatted arguments` is what the formatter returned, element for element."""
+    from sa.util import module_resolver
+    fmt = fmt or R.formatter
+    snd = snd or R.sender
+    ctx.rule(rule, "the bytes written by the sender equal verb + formatted arguments + CRLF (+ extra lines) on every path")
+    if len(snd.params) < 3:
+        ctx.notice(rule, "%s: not the (name, args, ...) signature; not evaluated" % snd.qualname)
+        return
+    pname, pargs = snd.params[1], snd.params[2]
+    pextra = next((p for p in snd.params[3:] if "extra" in p.lower() or "lines" in p.lower() and "nb" not in p.lower()), None)
+    send_names = {c.func.attr for c in R.send_sites.get(snd.name, []) if isinstance(c.func, ast.Attribute)}
+    checked = 0
+    undecided = None
+    for args in (None, [b"a"], [b"a", b"b", b"c"]):
+        for extra in ((None, [b"x", b"yy"]) if pextra else (None,)):
+            def oracle(interp, e, name, recv, a, kw, st):
+                if name == "self." + fmt.name or (name and mangle(R.cls.name, name[5:]) == fmt.name):
+                    v = a[0] if a else None
+                    if isinstance(v, fd.Const) and isinstance(v.v, (list, tuple)):
+                        return [(fd.Const([b"<" + x + b">" for x in v.v]), None)]
+                    return [(fd.Const([]), None)] if isinstance(v, fd.Const) and not v.v else None
+                if name in send_names and a:
+                    return [(fd.Const(None), ("send", a[0]))]
+                if name and name.startswith("self.") and name[5:] in R.methods:
+                    return [(fd.Unknown(name), None)]
+                return None
+            it = fd.Interp(snd.node, R.cls.name, oracle, resolve=module_resolver(ctx.program, R.module))
+            env = {pname: fd.Const("VERB"), pargs: fd.Const(args)}
+            if pextra:
+                env[pextra] = fd.Const(extra)
+            for q in snd.params[1:] + [a_.arg for a_ in snd.node.args.kwonlyargs]:
+                env.setdefault(q, fd.Unknown(q))  # every setting of the other parameters, not their defaults
+            try:
+                paths = it.run(env)
+            except fd.TooManyPaths:
+                undecided = "path explosion"
+                continue
+            want = b"VERB" + (b" " + b" ".join(b"<" + x + b">" for x in args) if args else b"") + b"\r\n" + b"".join(
+                x + b"\r\n" for x in (extra or []))
+            for p in paths:
+                if p.kind != "return":
+                    continue
+                sent = [x[1] for x in p.events if x[0] == "send"]
+                if not all(isinstance(x, fd.Const) and isinstance(x.v, (bytes, bytearray)) for x in sent):
+                    undecided = "a written value is not followed by the interpreter"
+                    continue
+                got = b"".join(bytes(x.v) for x in sent)
+                checked += 1
+                if got != want:
+                    facts = "; ".join(sorted({norm(f_[0])[:40] + ("" if f_[1] else " is false") for f_ in getattr(p, "facts", []) or []
+                                              if hasattr(f_[0], "lineno")}))[:200] if False else ""
+                    ctx.violation(rule, snd, "wire-bytes", "with args=%r, extra lines=%r the sender writes %r on some path; the command is %r"
+                                  % (args, extra, got, want), node=snd.node,
+                                  witness="a command whose arguments the server never receives as the caller passed them")
+                    return
+    if checked < 3:
+        ctx.notice(rule, "%s: not evaluable (%s); the syntactic W1 rules decide" % (snd.qualname, undecided or "no complete path"))
+    else:
+        ctx.holds(rule, "%s: %d (arguments, extra lines, flag settings) paths write exactly verb + formatted arguments + CRLF (+ lines)%s"
+                  % (snd.qualname, checked, "; undecided paths: " + undecided if undecided else ""))
 
 
 def resolve_helper(ctx, func, call):
